@@ -585,6 +585,9 @@ MUTANTS = [
     {"name": "yield-default-changed", "file": RR, "old": "{spec.photon_yield or 0.1}", "new": "{spec.photon_yield or 1e-3}", "rules": ["R5"]},
 ]
 BENIGN = [
+    {"name": "dispatch-tail-as-table-scan", "file": GR,
+     "old": "        elif rtype == ReactionType.GRAIN_DESORB_REACTIVE:\n            rate = self.rate_reactive_desorption(reac)\n\n        elif rtype == ReactionType.GRAIN_ECAPTURE:\n            rate = self.rate_electron_capture(reac)\n\n        else:\n            raise ValueError(\n                f\"Unknown reaction type in {self.model} dust model: {rtype}\"\n            )\n",
+     "new": "        else:\n            builders = (\n                (ReactionType.GRAIN_DESORB_REACTIVE, \"rate_reactive_desorption\"),\n                (ReactionType.GRAIN_ECAPTURE, \"rate_electron_capture\"),\n            )\n            for known_type, builder_name in builders:\n                if rtype == known_type:\n                    rate = getattr(self, builder_name)(reac)\n                    break\n            else:\n                raise ValueError(\n                    f\"Unknown reaction type in {self.model} dust model: {rtype}\"\n                )\n"},
     {"name": "factors-reordered", "file": HH, "old": '                f"{opt_thd} * {cov}",\n                f"{nMono} * {densites}",', "new": '                f"{nMono} * {densites}",\n                f"{cov} * {opt_thd}",'},
     {"name": "sqrt-as-pow", "file": GR, "old": 'f"sqrt(8.0 * kerg * {tgas}/ (pi*amu*{spec.A}))"', "new": 'f"pow(8.0 * kerg * {tgas}/ (pi*amu*{spec.A}), 0.5)"'},
 ]
